@@ -28,7 +28,7 @@ import elementpath.aliases as ta
 
 from elementpath.exceptions import ElementPathError
 from elementpath.tdop import MultiLabel
-from elementpath.helpers import Patterns, is_xml_codepoint, node_position
+from elementpath.helpers import Patterns, is_xml_codepoint, node_position, get_double
 from elementpath.namespaces import get_expanded_name, split_expanded_name, \
     XPATH_FUNCTIONS_NAMESPACE
 from elementpath.datatypes import NumericProxy, QName, Date, DateTime, Time, AnyURI
@@ -353,6 +353,8 @@ def evaluate__exp10(self: XPathFunction, context: ta.ContextType = None) -> ta.O
 @method(function('log', prefix='math', nargs=1, sequence_types=('xs:double?', 'xs:double?')))
 def evaluate__log(self: XPathFunction, context: ta.ContextType = None) -> ta.OneOrEmpty[float]:
     arg: ta.NumericType | None = self.get_argument(self.context or context, cls=NumericProxy)
+    if isinstance(arg, int):
+        arg = get_double(arg)  # promotion to xs:double (an infinite value beyond its range)
     if arg is None:
         return []
     return float('-inf') if not arg else math.nan if arg <= -1 else math.log(arg)
@@ -361,6 +363,8 @@ def evaluate__log(self: XPathFunction, context: ta.ContextType = None) -> ta.One
 @method(function('log10', prefix='math', nargs=1, sequence_types=('xs:double?', 'xs:double?')))
 def evaluate__log10(self: XPathFunction, context: ta.ContextType = None) -> ta.OneOrEmpty[float]:
     arg: ta.NumericType | None = self.get_argument(self.context or context, cls=NumericProxy)
+    if isinstance(arg, int):
+        arg = get_double(arg)  # promotion to xs:double (an infinite value beyond its range)
     if arg is None:
         return []
     return float('-inf') if not arg else math.nan if arg <= -1 else math.log10(arg)
@@ -393,6 +397,8 @@ def evaluate__pow(self: XPathFunction, context: ta.ContextType = None) -> ta.One
                  sequence_types=('xs:double?', 'xs:double?')))
 def evaluate__sqrt(self: XPathFunction, context: ta.ContextType = None) -> ta.OneOrEmpty[float]:
     arg: ta.NumericType | None = self.get_argument(self.context or context, cls=NumericProxy)
+    if isinstance(arg, int):
+        arg = get_double(arg)  # promotion to xs:double (an infinite value beyond its range)
     if arg is None:
         return []
     elif arg < 0:
@@ -404,6 +410,8 @@ def evaluate__sqrt(self: XPathFunction, context: ta.ContextType = None) -> ta.On
                  sequence_types=('xs:double?', 'xs:double?')))
 def evaluate__sin(self: XPathFunction, context: ta.ContextType = None) -> ta.OneOrEmpty[float]:
     arg: ta.NumericType | None = self.get_argument(self.context or context, cls=NumericProxy)
+    if isinstance(arg, int):
+        arg = get_double(arg)  # promotion to xs:double (an infinite value beyond its range)
     if arg is None:
         return []
     elif math.isinf(arg):
@@ -415,6 +423,8 @@ def evaluate__sin(self: XPathFunction, context: ta.ContextType = None) -> ta.One
                  sequence_types=('xs:double?', 'xs:double?')))
 def evaluate__cos(self: XPathFunction, context: ta.ContextType = None) -> ta.OneOrEmpty[float]:
     arg: ta.NumericType | None = self.get_argument(self.context or context, cls=NumericProxy)
+    if isinstance(arg, int):
+        arg = get_double(arg)  # promotion to xs:double (an infinite value beyond its range)
     if arg is None:
         return []
     elif math.isinf(arg):
@@ -426,6 +436,8 @@ def evaluate__cos(self: XPathFunction, context: ta.ContextType = None) -> ta.One
                  sequence_types=('xs:double?', 'xs:double?')))
 def evaluate__tan(self: XPathFunction, context: ta.ContextType = None) -> ta.OneOrEmpty[float]:
     arg: ta.NumericType | None = self.get_argument(self.context or context, cls=NumericProxy)
+    if isinstance(arg, int):
+        arg = get_double(arg)  # promotion to xs:double (an infinite value beyond its range)
     if arg is None:
         return []
     elif math.isinf(arg):
@@ -437,6 +449,8 @@ def evaluate__tan(self: XPathFunction, context: ta.ContextType = None) -> ta.One
                  sequence_types=('xs:double?', 'xs:double?')))
 def evaluate__asin(self: XPathFunction, context: ta.ContextType = None) -> ta.OneOrEmpty[float]:
     arg: ta.NumericType | None = self.get_argument(self.context or context, cls=NumericProxy)
+    if isinstance(arg, int):
+        arg = get_double(arg)  # promotion to xs:double (an infinite value beyond its range)
     if arg is None:
         return []
     elif arg < -1 or arg > 1:
@@ -448,6 +462,8 @@ def evaluate__asin(self: XPathFunction, context: ta.ContextType = None) -> ta.On
                  sequence_types=('xs:double?', 'xs:double?')))
 def evaluate__acos(self: XPathFunction, context: ta.ContextType = None) -> ta.OneOrEmpty[float]:
     arg: ta.NumericType | None = self.get_argument(self.context or context, cls=NumericProxy)
+    if isinstance(arg, int):
+        arg = get_double(arg)  # promotion to xs:double (an infinite value beyond its range)
     if arg is None:
         return []
     elif arg < -1 or arg > 1:
@@ -459,6 +475,8 @@ def evaluate__acos(self: XPathFunction, context: ta.ContextType = None) -> ta.On
                  sequence_types=('xs:double?', 'xs:double?')))
 def evaluate__atan(self: XPathFunction, context: ta.ContextType = None) -> ta.OneOrEmpty[float]:
     arg: ta.NumericType | None = self.get_argument(self.context or context, cls=NumericProxy)
+    if isinstance(arg, int):
+        arg = get_double(arg)  # promotion to xs:double (an infinite value beyond its range)
     if arg is None:
         return []
     return math.atan(arg)
@@ -667,7 +685,7 @@ def evaluate__format_number(self: XPathFunction, context: ta.ContextType = None)
         if any(EXPONENT_PIC.search(s) for s in sub_pictures):
             raise self.error('FODF1310')
 
-    if value is None or math.isnan(value):
+    if value is None or not isinstance(value, int) and math.isnan(value):
         return f"{decimal_format['NaN']}"
     elif isinstance(value, float):
         value = decimal.Decimal.from_float(value)
